@@ -1167,7 +1167,11 @@ val is_true_dec : bool -> decision
 
 val not_dec : decision -> decision
 
+val and_dec : decision -> decision -> decision
+
 val or_dec : decision -> decision -> decision
+
+val impl_dec : decision -> decision -> decision
 
 val unit_eq_dec : (unit, unit) relDecision
 
@@ -1182,6 +1186,8 @@ val bool_decide : decision -> bool
 val from_option : ('a1 -> 'a2) -> 'a2 -> 'a1 option -> 'a2
 
 val is_Some_dec : 'a1 option -> decision
+
+val option_eq_None_dec : 'a1 option -> decision
 
 val option_eq_dec :
   ('a1, 'a1) relDecision -> ('a1 option, 'a1 option) relDecision
@@ -2229,3 +2235,37 @@ val a_init_list : n list -> astate
 val a_disk_list : astate -> n list
 
 val a_mem_size : astate -> nat
+
+type 'v icstate = { c_disk : (n, 'v) gmap; c_cache : (n, 'v) gmap;
+                    c_wbuf : (n, 'v) gmap; c_owner : (n, nat) gmap }
+
+type 'v icop =
+| ILock of nat * n
+| IMod of nat * n * 'v
+| IWrite of nat * n
+| ICommit of nat
+| IAbort of nat
+| IEvict of n
+
+val disk_val : 'a1 -> 'a1 icstate -> n -> 'a1
+
+val mine : 'a1 icstate -> nat -> (n, 'a2) gmap -> (n, 'a2) gmap
+
+val not_mine : 'a1 icstate -> nat -> (n, 'a2) gmap -> (n, 'a2) gmap
+
+val clean_dec : ('a1, 'a1) relDecision -> 'a1 -> 'a1 icstate -> n -> decision
+
+val all_clean_dec :
+  ('a1, 'a1) relDecision -> 'a1 -> 'a1 icstate -> nat -> decision
+
+val icstep :
+  ('a1, 'a1) relDecision -> 'a1 -> 'a1 icstate -> 'a1 icop -> 'a1 icstate
+  option
+
+val ic_init : (n, 'a1) gmap -> 'a1 icstate
+
+val ic_make : (n * 'a1) list -> 'a1 icstate
+
+val ic_disk_at : 'a1 icstate -> n -> 'a1 option
+
+val ic_cache_at : 'a1 icstate -> n -> 'a1 option
